@@ -4,7 +4,8 @@
    is tied to the code by the correspondence check harness/c07.py. *)
 From Coq Require Import List NArith ZArith Arith Bool.
 From AHK Require Import Lib.ByteStr Model.Http Model.HttpWire Proofs.HttpStep Proofs.HttpFeed
-  Proofs.HttpCorrect Proofs.HttpInv.
+  Proofs.HttpCorrect Proofs.HttpInv Model.HttpSecure Proofs.HttpSecure.
+From AHK Require Model.Frame.
 Import ListNotations.
 
 (* For EVERY parser state s (reachable or not) and all reads a, b: if the run on
@@ -100,6 +101,99 @@ Example c07_wf_nonvacuous :
      (KHttp, 200%Z, [(s_te, s_chunked)], [97;98;99]%N)].
 Proof. cbv zeta. repeat split; vm_compute; reflexivity. Qed.
 
+(* ------------------------------------------------------------------------------
+   The same property over the ENCRYPTED session (SecureHomeKitProtocol.data_received
+   = C05's framing model ; one hfeed per decrypted block): Model/HttpSecure.v.
+   The HTTP bytes are cut twice - into blocks by the accessory, into reads of the
+   ciphertext by TCP - and neither cut may matter.
+   ------------------------------------------------------------------------------ *)
+
+(* the stream theorem with an explicit list of cut positions (relative lengths):
+   forall cuts, feed_all (split cuts (encode_all msgs)) = msgs *)
+Theorem hfeed_correct_cuts : forall ws lens,
+    forallb wf_wire ws = true ->
+    hfeeds hinit (split_at lens (concat (map render ws))) = (hinit, map interp ws).
+Proof. exact hfeed_correct_cuts_lem. Qed.
+
+(* for EVERY state of both layers (any buffered ciphertext, any counter, Dead; any
+   parser state), every decrypt function and all reads a, b: two reads = one read of
+   a ++ b - same messages, same final state of both layers *)
+Theorem secure_feed_app : forall opn s a b,
+    secure_feed opn s (a ++ b)
+    = (fst (secure_feed opn (fst (secure_feed opn s a)) b),
+       snd (secure_feed opn s a) ++ snd (secure_feed opn (fst (secure_feed opn s a)) b)).
+Proof. exact secure_feed_app_lem. Qed.
+
+(* hence any two read schedules of the same ciphertext agree *)
+Theorem secure_schedule : forall opn s d segs,
+    secure_feeds opn s (d :: segs) = secure_feed opn s (concat (d :: segs)).
+Proof. exact (fun opn s d segs => secure_feeds_concat_cons opn segs s d). Qed.
+
+Theorem secure_segmentations : forall opn s (d : bytes) (segs : list bytes) (d' : bytes) (segs' : list bytes),
+    concat (d :: segs) = concat (d' :: segs') ->
+    secure_feeds opn s (d :: segs) = secure_feeds opn s (d' :: segs').
+Proof. exact secure_feeds_nonempty_eq. Qed.
+
+(* composition: decrypt-deframe then parse = parse of the plaintext.  Blocks ps of any
+   sizes 0..65535 sealed in order from counter ctr by any cipher with open . seal = id,
+   the ciphertext cut into reads in any way, any parser state to start from: the
+   messages and the parser's final state are those of ONE plain read of concat ps. *)
+Theorem secure_is_plain_parse : forall A key, Frame.aead_ok A 16 -> forall ps ctr segs p raw,
+    Forall (fun b => (N.of_nat (length b) < 65536)%N) ps ->
+    (ctr + N.of_nat (length ps) <= Frame.ctr_limit)%N ->
+    concat segs = Frame.seal_stream A key ctr ps ->
+    secure_feeds (Frame.open A key) (Frame.Live [] ctr, Run p raw) segs
+    = ((norm (Frame.Live [] (ctr + N.of_nat (length ps))%N) (fst (hfeed (Run p raw) (concat ps))),
+        fst (hfeed (Run p raw) (concat ps))),
+       snd (hfeed (Run p raw) (concat ps))).
+Proof. exact secure_plain_lem. Qed.
+
+(* ... with the bytes of an incomplete next block left in the buffer *)
+Theorem secure_is_plain_parse_partial : forall A key, Frame.aead_ok A 16 -> forall ps ctr segs tail p raw,
+    Forall (fun b => (N.of_nat (length b) < 65536)%N) ps ->
+    (ctr + N.of_nat (length ps) <= Frame.ctr_limit)%N ->
+    Frame.ip_step (Frame.open A key) tail (ctr + N.of_nat (length ps))%N = Frame.NeedMore ->
+    concat segs = Frame.seal_stream A key ctr ps ++ tail ->
+    secure_feeds (Frame.open A key) (Frame.Live [] ctr, Run p raw) segs
+    = ((norm (Frame.Live tail (ctr + N.of_nat (length ps))%N) (fst (hfeed (Run p raw) (concat ps))),
+        fst (hfeed (Run p raw) (concat ps))),
+       snd (hfeed (Run p raw) (concat ps))).
+Proof. exact secure_plain_partial_lem. Qed.
+
+(* end to end: well-formed messages, cut into blocks in ANY way, sealed, the
+   ciphertext cut into reads in ANY way: exactly these messages are delivered, in
+   order; the framing buffer is empty, the counter advanced by the number of blocks,
+   the parser fresh *)
+Theorem secure_correct : forall A key, Frame.aead_ok A 16 -> forall ws ps ctr segs,
+    forallb wf_wire ws = true ->
+    concat ps = concat (map render ws) ->
+    Forall (fun b => (N.of_nat (length b) < 65536)%N) ps ->
+    (ctr + N.of_nat (length ps) <= Frame.ctr_limit)%N ->
+    concat segs = Frame.seal_stream A key ctr ps ->
+    secure_feeds (Frame.open A key) (sinit ctr) segs
+    = ((Frame.Live [] (ctr + N.of_nat (length ps))%N, hinit), map interp ws).
+Proof. exact secure_correct_lem. Qed.
+
+(* non-vacuity: the three messages of c07_wf_nonvacuous, cut into 4 blocks (the first
+   block ends between the CR and the LF that end message 1, the second is one byte),
+   sealed with the toy cipher of Model/Frame.v from counter 7 (203 bytes), read in 5
+   pieces: 1 byte (inside the first length prefix), up to inside the first ciphertext,
+   up to inside its tag, ...; the 3rd read alone delivers nothing, the whole run
+   delivers the three messages *)
+Example c07_secure_nonvacuous :
+  let ws := [ mkW [72;84;84;80;47;49;46;49]%N [50;48;52]%N [78;111;32;67;111;110;116;101;110;116]%N [] FNone;
+              mkW [69;86;69;78;84;47;49;46;48]%N [50;48;48]%N [79;75]%N [([99;111;110;116;101;110;116;45;108;101;110;103;116;104]%N, [32;53]%N)] (FFixed [104;101;108;108;111]%N);
+              mkW [72;84;84;80;47;49;46;49]%N [50;48;48]%N [79;75]%N [([84;114;97;110;115;102;101;114;45;69;110;99;111;100;105;110;103]%N, [32;99;104;117;110;107;101;100]%N)] (FChunked [([51]%N, [97;98;99]%N)] [48]%N) ] in
+  let ps := split_at [26; 1; 60] (concat (map render ws)) in
+  let ct := Frame.seal_stream Frame.toy_aead [] 7 ps in
+  let segs := split_at [1; 10; 25; 100] ct in
+  forallb wf_wire ws = true /\ concat ps = concat (map render ws) /\
+  map (@length N) ps = [26; 1; 60; 44] /\ length ct = 203 /\ map (@length N) segs = [1; 10; 25; 100; 67] /\
+  snd (secure_feeds (Frame.open Frame.toy_aead []) (sinit 7) (firstn 3 segs)) = [] /\
+  secure_feeds (Frame.open Frame.toy_aead []) (sinit 7) segs
+  = ((Frame.Live [] 11%N, hinit), map interp ws).
+Proof. cbv zeta. repeat split; vm_compute; reflexivity. Qed.
+
 Print Assumptions hfeed_app.
 Print Assumptions hfeed_app_total.
 Print Assumptions hfeed_segmentations.
@@ -108,3 +202,10 @@ Print Assumptions hfeed_leftover.
 Print Assumptions hfeed_correct.
 Print Assumptions hfeed_correct_segmented.
 Print Assumptions hfeed_guard_dead.
+Print Assumptions hfeed_correct_cuts.
+Print Assumptions secure_feed_app.
+Print Assumptions secure_schedule.
+Print Assumptions secure_segmentations.
+Print Assumptions secure_is_plain_parse.
+Print Assumptions secure_is_plain_parse_partial.
+Print Assumptions secure_correct.
